@@ -1,16 +1,24 @@
 // C09 — crash-consistent, all-or-nothing block commit (fault enumeration).
 //
-// A short block history is written ONCE through the real store (opened by the verif hook
-// store.VerifC09OpenStoreFS with NewStore's pebble options) on crashFS, a wrapper around
-// pebble's crashable MemFS. Before every state-changing file-system operation (create,
-// write, sync, rename, remove, mkdir, lock, dir-sync ...) issued by any goroutine —
-// during pebble.Open, during and between Commit()s, during background compaction,
-// Close(), a clean reopen and (thorough) Rollback() — the crash state is snapshotted.
-// For every snapshot the possible post-crash disks are enumerated (all keep/drop subsets
-// of the unsynced directory entries and 4 KiB blocks when there are <= 10 of them,
-// otherwise every subset with <= 2 departures from drop-all and from keep-all).
-// Every distinct disk image is handed to a worker process that opens it the way a
-// restarted node would and applies the oracle (see checkImage).
+// A short block history (genesis commit + 4 blocks quick / 6 thorough; each block = state
+// sets, overwrites, deletes, a set-then-delete, indexed QC + block + 2 txs + 2 events,
+// checkpoints / double signers) is written ONCE per scenario through the real store
+// (opened by the verif hook store.VerifC09OpenStoreFS with NewStore's pebble options) on
+// crashFS, a wrapper around pebble's crashable MemFS (cfs.go). Before every
+// state-changing file-system operation (create, write, sync, rename, remove, mkdir, lock,
+// dir-sync, WAL reuse ...) issued by any goroutine — during pebble.Open, during and
+// between Commit()s, during the store's background compaction, Close(), a clean reopen
+// and (thorough) Rollback() — the crash state is snapshotted (= one crash point).
+// For every crash point the possible post-crash disks are enumerated: all keep/drop
+// subsets of the unsynced directory entries and 4 KiB blocks when there are m <= 10
+// (thorough 12) of them, otherwise every subset with <= 2 (thorough 3 up to m = 20)
+// departures from drop-all and from keep-all. Every distinct disk image is handed to a
+// worker process that opens it the way a restarted node would and applies the oracle
+// (checkImage): version = some h whose Commit() had started before the crash; Root(),
+// latest state, NewReadOnly(v) for all v <= h, block/QC/tx/event/account/checkpoint
+// indexes for all heights (incl. absence of everything above h), fsm.New, and the raw
+// pebble content equal what the uninterrupted run had at h; then the uninterrupted run's
+// next block is applied and must give the recorded root and observations of h+1.
 package main
 
 import (
@@ -32,8 +40,19 @@ import (
 
 var trace = os.Getenv("C09_TRACE") != ""
 
-const fullEnumM = 10 // all 2^m subsets up to this many effective decisions
-const boundDev = 2   // otherwise: <= boundDev departures from drop-all and from keep-all
+// Enumeration bound per crash point (m = effective keep/drop decisions at that point):
+// all 2^m subsets when m <= fullEnumM, otherwise every subset with at most boundDev(m)
+// departures from drop-all and from keep-all. Quick: 10 / 2. Thorough: 12 / 3 (2 above 20).
+var fullEnumM = 10
+
+var thoroughBound = false
+
+func boundDev(m int) int {
+	if thoroughBound && m <= 20 {
+		return 3
+	}
+	return 2
+}
 
 // ---------------------------------------------------------------------------------------
 // crash points
@@ -121,9 +140,9 @@ func enumerate(cp *crashPoint, emit func(im *image, ds []decision)) {
 		cp.Mode = "all-subsets"
 		run(false, -1)
 	} else {
-		cp.Mode = fmt.Sprintf("<=%d-departures-from-drop-all-and-keep-all", boundDev)
-		run(false, boundDev)
-		run(true, boundDev)
+		cp.Mode = fmt.Sprintf("<=%d-departures-from-drop-all-and-keep-all", boundDev(m))
+		run(false, boundDev(m))
+		run(true, boundDev(m))
 	}
 }
 
@@ -535,6 +554,9 @@ func main() {
 		doReplay(r)
 		return
 	}
+	if !r.Quick() {
+		fullEnumM, thoroughBound = 12, true
+	}
 	t0 := time.Now()
 	var stats []*runStats
 	totalPoints, totalImages, totalDistinct := 0, 0, 0
@@ -752,7 +774,7 @@ func boundTable(points []*crashPoint) string {
 		}
 		mode := "all"
 		if points[i].Mode != "all-subsets" {
-			mode = "<=2dep"
+			mode = fmt.Sprintf("<=%ddep", boundDev(points[i].M))
 		}
 		if j > i {
 			fmt.Fprintf(&sb, "#%d-%d:m=%d,%s,%dimg ", i, j, points[i].M, mode, points[i].Images)
